@@ -471,7 +471,7 @@ def e5_part(prop_arg, n):
 
 PROPERTIES = {
     "C01": dict(level="exploration", parts=[e1_part("C01", dict(quick=400000, thorough=4000000))] + [fuzz_part("layout", "C01", dict(quick=0, thorough=250000), 256)]),
-    "C02": dict(level="exploration", parts=[e1_part("C02", dict(quick=200000, thorough=2000000))] + e3_parts("C02", "B", dict(quick=20000, thorough=200000)) + [fuzz_part("layout", "C02", dict(quick=0, thorough=250000), 256)]),
+    "C02": dict(level="exploration", parts=[e1_part("C02", dict(quick=400000, thorough=3000000))] + e3_parts("C02", "B", dict(quick=20000, thorough=200000)) + [fuzz_part("layout", "C02", dict(quick=0, thorough=250000), 256)]),
     "C03": dict(level="exploration", parts=[e1_part("C03", dict(quick=400000, thorough=4000000))] + e3_parts("C03", "B", dict(quick=100000, thorough=1500000)) + [e5_part("C03", dict(quick=400, thorough=6000))] + [fuzz_part("layout", "C03", dict(quick=0, thorough=250000), 256)]),
     "C04": dict(level="exploration", parts=e3_parts("C04", "AB", dict(quick=150000, thorough=2500000)) + [fuzz_part("gendrive", "C04", dict(quick=0, thorough=150000), 160)]),
     "C05": dict(level="exploration", parts=e3_parts("C05", "AB", dict(quick=150000, thorough=2500000)) + [fuzz_part("gendrive", "C05", dict(quick=0, thorough=150000), 160)]),
